@@ -665,6 +665,7 @@ func c07Check(c *harness.Ctx) {
 	}
 	scns = withLegacy(scns, legacyEvery(c.Thorough(), 4))
 	scns = append(scns, c07SlowTwins(c.Thorough())...)
+	scns = append(scns, c07ExtraScenarios(c.Thorough())...)
 	for i, s := range scns {
 		if !c.Mine(i) {
 			continue
@@ -681,12 +682,12 @@ func c07Check(c *harness.Ctx) {
 func init() {
 	harness.Register(&harness.Check{
 		Property: "C07", Level: "model_checking", NeedsConc: true, QuickS: 150, ThoroughS: 900,
-		Rule:   "stateless model checking of the real (rewritten) corebgp under the vrt scheduler: for each of 4 identifier/AS configurations x {inbound, outbound completes first} x scenario shapes {forced-collision, forced-precedence, eager, kill-race with FIN/garbage, forced-kill (the remote itself ends the first connection with a Cease or FIN while the collision is being resolved: the untouched connection must end up Established or closed, never wedged), two-rounds (a second collision after the first session ended, with the other side dominant)}; 4 more configurations with identifiers more than 2^31 apart in the forced shapes; all schedules within the delay bound (quick 2, thorough 3) of the canonical schedule, with happens-before state caching; distinct_nontrivial = distinct observable outcomes (callback log + bytes written) summed over scenarios",
+		Rule:   "stateless model checking of the real (rewritten) corebgp under the vrt scheduler: for each of 4 identifier/AS configurations x {inbound, outbound completes first} x scenario shapes {forced-collision, forced-precedence, eager, kill-race with FIN/garbage, forced-kill (the remote itself ends the first connection with a Cease or FIN while the collision is being resolved: the untouched connection must end up Established or closed, never wedged), two-rounds (a second collision after the first session ended, with the other side dominant), retry-collision (the collision happens on the second inbound attempt after an aborted one), late-connection (another connection of the peer shows up while a session is Established and sends a bad OPEN / garbage / OPEN+NOTIFICATION / a valid OPEN: the Established session is kept undisturbed)}; 4 more configurations with identifiers more than 2^31 apart in the forced shapes; all schedules within the delay bound (quick 2, thorough 3) of the canonical schedule, with happens-before state caching; distinct_nontrivial = distinct observable outcomes (callback log + bytes written) summed over scenarios",
 		Assume: []string{"delay-bounded schedules (bound reported in coverage.min_bound_completed)", "virtual network (A3); the dominance rule is judged only in the forced shapes where the remote's script removes the TCP-level ambiguity"},
 		Run:    c07Check,
 		Replay: scnReplay("C07", func(name string) *Scn {
 			name = strings.TrimPrefix(name, "unbounded:")
-			for _, s := range c07Scenarios(true) {
+			for _, s := range append(c07Scenarios(true), c07ExtraScenarios(true)...) {
 				if s.Name == name {
 					return s
 				}
@@ -694,4 +695,247 @@ func init() {
 			return nil
 		}),
 	})
+}
+
+// c07RetryRun: a collision after a failed inbound attempt. The outbound connection reaches OpenConfirm
+// (the remote withholds its KEEPALIVE); a first inbound connection is closed by the remote right after
+// corebgp's OPEN; a second inbound connection then completes its OPEN exchange. Both connections are in
+// OpenConfirm: the rule decides, exactly as if the aborted attempt had never happened.
+func c07RetryRun(cfg collCfg, ch vrt.Chooser, trace bool) (*world.World, *vrt.Exec, *collObs) {
+	var w *world.World
+	o := newCollObs()
+	e := vrt.Run(vrt.Config{Horizon: int64(40 * time.Second), Trace: trace, Chooser: ch}, func() {
+		w = world.New(libIP)
+		w.NewServer(ip4(cfg.localID))
+		pl := &world.Plugin{W: w, Peer: "P1", Marker: true}
+		w.NW.OnDial(remAddr, func(att int, from *net.TCPAddr) vnet.DialOutcome {
+			if att > 0 {
+				return vnet.DialOutcome{Kind: vnet.DialRefuse}
+			}
+			return vnet.DialOutcome{Kind: vnet.DialAccept, Serve: func(c *vnet.Conn) {
+				r := w.NewRemote(c, "P1")
+				defer r.Finish()
+				o.conn["out"] = c
+				if _, ok := r.Expect(wire.TypeOpen); !ok {
+					return
+				}
+				o.gotOpen["out"] = true
+				r.Send(collOpen(cfg))
+				if _, ok := r.Expect(wire.TypeKeepalive); !ok {
+					w.SetFlag("out-ka")
+					w.SetFlag("out-dead")
+					return
+				}
+				o.gotKA["out"] = true
+				w.SetFlag("out-ka")
+				w.WaitFlag("in-ka")
+				collTail(w, r, "out", o)
+			}}
+		})
+		if err := w.Server.AddPeer(peerConfig(remIP, cfg.localAS, cfg.remoteAS), pl, corebgp.WithDialerControl(w.DialControl("P1"))); err != nil {
+			panic("harness: " + err.Error())
+		}
+		w.Serve(libAddr)
+		vrt.GoWorld("remote-in", func() {
+			w.WaitFlag("out-ka")
+			// first attempt: gone right after corebgp's OPEN
+			if c, err := w.NW.DialIn("10.0.0.2:40001", libAddr); err == nil {
+				r := w.NewRemote(c, "P1")
+				r.Expect(wire.TypeOpen)
+				r.C.Close()
+				r.Finish()
+			}
+			vrt.Sleep(time.Millisecond)
+			c, err := w.NW.DialIn("10.0.0.2:40002", libAddr)
+			if err != nil {
+				w.SetFlag("in-ka")
+				return
+			}
+			r := w.NewRemote(c, "P1")
+			defer r.Finish()
+			o.conn["in"] = c
+			if _, ok := r.Expect(wire.TypeOpen); !ok {
+				w.SetFlag("in-ka")
+				w.SetFlag("in-dead")
+				return
+			}
+			o.gotOpen["in"] = true
+			r.Send(collOpen(cfg))
+			if _, ok := r.Expect(wire.TypeKeepalive); !ok {
+				if n := len(r.Rx); n > 0 && r.Rx[n-1].Type == wire.TypeNotification {
+					m := r.Rx[n-1]
+					o.notif["in"] = &m
+					r.Deadline(time.Second)
+					r.Drain()
+				}
+				o.eof["in"] = r.EOF || r.ReadErr != nil
+				w.SetFlag("in-ka")
+				w.SetFlag("in-dead")
+				return
+			}
+			o.gotKA["in"] = true
+			w.SetFlag("in-ka")
+			collTail(w, r, "in", o)
+		})
+		vrt.NewTimer(time.Second)
+		vrt.WaitLog("remotes-done", func() bool {
+			return vrt.Cur().Now() >= int64(time.Second) && w.AllRemotesDone(3)
+		})
+		vrt.LogTouch()
+		w.Close()
+		w.WaitServeDone()
+	})
+	return w, e, o
+}
+
+// c07LateRun: one session is Established (direction est); then another connection of the same peer shows
+// up (inbound) and misbehaves in a way that is a protocol error or nothing at all. "The Established one is
+// kept": it receives no NOTIFICATION, no OnClose, and still delivers a probe afterwards.
+func c07LateRun(cfg collCfg, how string, ch vrt.Chooser, trace bool) (*world.World, *vrt.Exec, *collObs) {
+	var w *world.World
+	o := newCollObs()
+	e := vrt.Run(vrt.Config{Horizon: int64(40 * time.Second), Trace: trace, Chooser: ch}, func() {
+		w = world.New(libIP)
+		w.NewServer(ip4(cfg.localID))
+		pl := &world.Plugin{W: w, Peer: "P1", Marker: true}
+		w.NW.OnDial(remAddr, func(att int, from *net.TCPAddr) vnet.DialOutcome {
+			if att > 0 {
+				return vnet.DialOutcome{Kind: vnet.DialRefuse}
+			}
+			return vnet.DialOutcome{Kind: vnet.DialAccept, Serve: func(c *vnet.Conn) {
+				r := w.NewRemote(c, "P1")
+				defer r.Finish()
+				o.conn["out"] = c
+				if _, ok := r.Expect(wire.TypeOpen); !ok {
+					return
+				}
+				r.Send(collOpen(cfg))
+				if _, ok := r.Expect(wire.TypeKeepalive); !ok {
+					return
+				}
+				r.Send(wire.Keepalive())
+				if m, ok := r.Expect(wire.TypeUpdate); ok {
+					_, o.established["out"] = world.IsMarker(m.Body)
+				}
+				w.SetFlag("out-est")
+				w.WaitFlag("late-done")
+				r.Send(wire.Update([]byte("PROBE-out")))
+				vrtWaitDelivered(w, "PROBE-out")
+				for _, ev := range w.Log {
+					if ev.Kind == "Handler" && ev.Phase == "exit" && string(ev.Data) == "PROBE-out" {
+						o.probe["out"] = true
+					}
+				}
+				r.Deadline(time.Second)
+				r.Drain()
+				for _, m := range r.Rx {
+					if m.Type == wire.TypeNotification {
+						mm := m
+						o.notif["out"] = &mm
+					}
+				}
+				o.eof["out"] = r.EOF || r.ReadErr != nil
+			}}
+		})
+		if err := w.Server.AddPeer(peerConfig(remIP, cfg.localAS, cfg.remoteAS), pl, corebgp.WithDialerControl(w.DialControl("P1"))); err != nil {
+			panic("harness: " + err.Error())
+		}
+		w.Serve(libAddr)
+		vrt.GoWorld("remote-late", func() {
+			w.WaitFlag("out-est")
+			defer w.SetFlag("late-done")
+			c, err := w.NW.DialIn("10.0.0.2:40001", libAddr)
+			if err != nil {
+				return
+			}
+			r := w.NewRemote(c, "P1")
+			defer r.Finish()
+			o.conn["in"] = c
+			switch how {
+			case "bad-open":
+				r.Send(wire.Open(64999, 90, cfg.remoteID))
+			case "garbage":
+				r.Send([]byte{1, 2, 3, 4, 5, 6, 7, 8, 9, 10, 11, 12, 13, 14, 15, 16, 17, 18, 19})
+			case "open-then-notification":
+				r.Send(collOpen(cfg))
+				r.Send(wire.Notification(2, 2, nil))
+			case "open":
+				r.Send(collOpen(cfg))
+			case "open-keepalive":
+				r.Send(collOpen(cfg))
+				r.Send(wire.Keepalive())
+			}
+			r.Deadline(time.Second)
+			r.Drain()
+			for _, m := range r.Rx {
+				if m.Type == wire.TypeUpdate {
+					if _, ok := world.IsMarker(m.Body); ok {
+						o.established["in"] = true
+					}
+				}
+			}
+			o.eof["in"] = r.EOF || r.ReadErr != nil
+		})
+		vrt.NewTimer(time.Second)
+		vrt.WaitLog("remotes-done", func() bool {
+			return vrt.Cur().Now() >= int64(time.Second) && w.AllRemotesDone(2)
+		})
+		vrt.LogTouch()
+		w.Close()
+		w.WaitServeDone()
+	})
+	return w, e, o
+}
+
+func judgeLate(w *world.World, o *collObs) (string, string) {
+	if !o.established["out"] {
+		return "setup", "the first session did not become Established"
+	}
+	if o.notif["out"] != nil {
+		return "established-disturbed", fmt.Sprintf("the Established connection received %s after another connection of the peer misbehaved", o.notif["out"])
+	}
+	if !o.probe["out"] {
+		return "established-disturbed", "the Established session no longer delivers UPDATEs after another connection of the peer showed up"
+	}
+	if o.established["in"] {
+		return "both-established", "the late connection became Established as well"
+	}
+	if o.conn["in"] != nil && !o.eof["in"] {
+		return "second-not-closed", "the late connection was not closed"
+	}
+	for _, ev := range w.Log {
+		if ev.Kind == "OnClose" && ev.T < int64(900*time.Millisecond) {
+			return "established-disturbed", "OnClose fired for the Established session"
+		}
+	}
+	return monitorCallbacks(w)
+}
+
+func c07ExtraScenarios(th bool) []*Scn {
+	var out []*Scn
+	bound := 2
+	if th {
+		bound = 3
+	}
+	for ci := range collCfgs {
+		cfg := collCfgs[ci]
+		if ci >= 4 && !th {
+			continue
+		}
+		out = append(out, &Scn{Name: "retry-collision/" + cfg.name, Bound: bound, Run: func(ch vrt.Chooser, trace bool) *ScnResult {
+			w, e, o := c07RetryRun(cfg, ch, trace)
+			return finishRun("C07", "retry-collision", w, e, trace, false, func() (string, string) { return judgeForcedCollision(cfg, w, o) }, nil)
+		}})
+		if ci >= 2 {
+			continue
+		}
+		for _, how := range []string{"bad-open", "garbage", "open-then-notification", "open", "open-keepalive"} {
+			how := how
+			out = append(out, &Scn{Name: "late-connection/" + cfg.name + "/" + how, Bound: bound - 1, Run: func(ch vrt.Chooser, trace bool) *ScnResult {
+				w, e, o := c07LateRun(cfg, how, ch, trace)
+				return finishRun("C07", "late-connection", w, e, trace, false, func() (string, string) { return judgeLate(w, o) }, nil)
+			}})
+		}
+	}
+	return out
 }
